@@ -307,4 +307,39 @@ Proof. intro H. unfold step, merge. cbn [chiL A]. rewrite <- H.
   rewrite (bsum_ext (chiL s1) _ (fun l => bsum (chiR s1) (fun k => v l * A s1 (q / d s2) l k * A s2 (q mod d s2) k r)))
     by (intros l _; rewrite <- bsum_mul_l; apply bsum_ext; intros k _; ring).
   rewrite bsum_swap. apply bsum_ext; intros k _. rewrite <- bsum_mul_r. reflexivity. Qed.
+
+(* ---- truncating a singular value decomposition (C09): theta = U diag(s) V with orthonormal columns of U and rows of V.  Keeping the
+   first [keep] values changes theta by exactly the weight of the discarded ones: |theta - theta_keep|^2 = sum_{k >= keep} s_k conj(s_k) ---- *)
+Definition tail_ind (keep k : nat) : K := if Nat.leb keep k then k1 else k0.
+Definition svd_tail (m n rank keep : nat) (U : nat -> nat -> K) (s : nat -> K) (V : nat -> nat -> K) : nat -> nat -> K :=
+  fun a b => bsum rank (fun k => tail_ind keep k * (U a k * s k * V k b)).
+Definition frob2 (m n : nat) (D : nat -> nat -> K) : K := bsum m (fun a => bsum n (fun b => D a b * cj (D a b))).
+Lemma tail_ind_cj keep k : cj (tail_ind keep k) = tail_ind keep k.
+Proof. unfold tail_ind. destruct (Nat.leb keep k); [apply cj_1|apply cj_0]. Qed.
+Lemma tail_ind_idem keep k : tail_ind keep k * tail_ind keep k = tail_ind keep k.
+Proof. unfold tail_ind. destruct (Nat.leb keep k); ring. Qed.
+Lemma bsum_prod m n (f g : nat -> K) c : bsum m (fun a => bsum n (fun b => c * (f a * g b))) = c * (bsum m f * bsum n g).
+Proof. rewrite (bsum_ext m _ (fun a => c * (f a * bsum n g))).
+  - rewrite bsum_mul_l, bsum_mul_r. reflexivity.
+  - intros a _. rewrite bsum_mul_l, bsum_mul_l. reflexivity. Qed.
+Theorem truncation_error_is_discarded_weight m n rank keep U s V :
+  (forall k k', k < rank -> k' < rank -> bsum m (fun a => U a k * cj (U a k')) = if Nat.eqb k k' then k1 else k0) ->
+  (forall k k', k < rank -> k' < rank -> bsum n (fun b => V k b * cj (V k' b)) = if Nat.eqb k k' then k1 else k0) ->
+  frob2 m n (svd_tail m n rank keep U s V) = bsum rank (fun k => tail_ind keep k * (s k * cj (s k))).
+Proof. intros OU OV. unfold frob2, svd_tail.
+  transitivity (bsum rank (fun k => bsum rank (fun k' => tail_ind keep k * tail_ind keep k' * (s k * cj (s k')) *
+      (bsum m (fun a => U a k * cj (U a k')) * bsum n (fun b => V k b * cj (V k' b)))))).
+  - transitivity (bsum m (fun a => bsum n (fun b => bsum rank (fun k => bsum rank (fun k' =>
+        tail_ind keep k * tail_ind keep k' * (s k * cj (s k')) * ((U a k * cj (U a k')) * (V k b * cj (V k' b)))))))).
+    + apply bsum_ext; intros a _. apply bsum_ext; intros b _. rewrite cj_bsum. rewrite <- bsum_mul_r. apply bsum_ext; intros k _.
+      rewrite <- bsum_mul_l. apply bsum_ext; intros k' _. rewrite !cj_mul, tail_ind_cj. ring.
+    + rewrite (bsum_ext m _ (fun a => bsum rank (fun k => bsum rank (fun k' => bsum n (fun b =>
+        tail_ind keep k * tail_ind keep k' * (s k * cj (s k')) * ((U a k * cj (U a k')) * (V k b * cj (V k' b)))))))).
+      * rewrite bsum_swap. apply bsum_ext; intros k _. rewrite bsum_swap. apply bsum_ext; intros k' _.
+        exact (bsum_prod m n (fun a => U a k * cj (U a k')) (fun b => V k b * cj (V k' b)) _).
+      * intros a _. rewrite bsum_swap. apply bsum_ext; intros k _. rewrite bsum_swap. reflexivity.
+  - apply bsum_ext; intros k Hk.
+    rewrite (bsum_ext rank _ (fun k' => (if Nat.eqb k k' then k1 else k0) * (tail_ind keep k * tail_ind keep k' * (s k * cj (s k'))))).
+    + rewrite bsum_delta by exact Hk. rewrite <- tail_ind_idem at 3. ring.
+    + intros k' Hk'. rewrite OU, OV by assumption. destruct (Nat.eqb k k'); ring. Qed.
 End TT.
